@@ -113,6 +113,7 @@ func (p *Processor[K, T]) process(isNext bool) {
 		// Nop - fallthrough
 	default:
 		// Already running
+		verifPoint("process.busy")
 		if isNext {
 			// If this is the next item, send a reset signal
 			// Use a select in case another goroutine is sending a reset signal too
@@ -138,6 +139,8 @@ func (p *Processor[K, T]) processLoop() {
 		<-p.processorRunningCh
 	}()
 
+	verifPoint("loop.start")
+
 	var (
 		r             T
 		ok            bool
@@ -152,8 +155,11 @@ func (p *Processor[K, T]) processLoop() {
 		r, ok = p.queue.Peek()
 		p.lock.Unlock()
 		if !ok {
+			verifPoint("loop.empty")
 			return
 		}
+
+		verifPoint("loop.peeked")
 
 		// Check if after obtaining the lock we have a stop or reset signals
 		// Do this before we create a timer
@@ -179,9 +185,11 @@ func (p *Processor[K, T]) processLoop() {
 		}
 
 		t = p.clock.NewTimer(deadline)
+		verifPoint("loop.armed")
 		select {
 		// Wait for when it's time to execute the item
 		case <-t.C():
+			verifPoint("loop.fired")
 			p.execute(r)
 
 		// If we get a reset signal, restart the loop
@@ -218,5 +226,6 @@ func (p *Processor[K, T]) execute(r T) {
 		return
 	}
 
+	verifPoint("exec.popped")
 	p.executeFn(r)
 }
